@@ -2,7 +2,7 @@
    Model: PL.Assess.Pipeline (composition of abstract stages with explicit contracts; every contract is checked on
    the implementation's stage outputs by harness/props/c10.py on every run).  Only statements, `exact`, Print Assumptions. *)
 From Coq Require Import Reals List Lra Lia Bool.
-From PL Require Import Assess.Pipeline Assess.PipelineEx Assess.Layout.
+From PL Require Import Assess.Pipeline Assess.PipelineEx Assess.Layout Assess.Decide.
 Import ListNotations.
 Open Scope R_scope.
 
@@ -42,6 +42,38 @@ Proof. exact Layout.rep_each_wrong. Qed.
 Theorem uniform_knee_hides_layout (c : R) (k : nat) (Z : list R) (r : nat) :
   Forall (eq c) Z -> nth r (rep_each k Z) c = nth r (tile k Z) c.
 Proof. exact (Layout.uniform_hides_layout c k Z r). Qed.
+
+(* ---- decisions of the HCM in a batch (no contracts): every branch is decided by comparing two absolute loads or load extents of
+   the FIRST point with an absolute tolerance eps (a > b + eps, a < b - eps) and applied to all points; point i alone compares
+   ri * a with ri * b where the batch compares r0 * a with r0 * b.  Exact comparisons and tolerances proportional to the load
+   magnitude are scale invariant; with an absolute tolerance the decision of the first point is the decision of point i when
+   the compared quantities are equal or differ by more than eps at both points (`separated`) -- and for every eps > 0 and every
+   pair of different quantities some positive ratio of the first point makes the batch decide differently from the point itself *)
+Theorem hcm_exact_decision_scale_invariant r a b : 0 < r ->
+  (gt_tol 0 (r * a) (r * b) <-> gt_tol 0 a b) /\ (lt_tol 0 (r * a) (r * b) <-> lt_tol 0 a b).
+Proof. exact (fun Hr => conj (Decide.gt_exact_scale r a b Hr) (Decide.lt_exact_scale r a b Hr)). Qed.
+
+Theorem hcm_relative_tolerance_scale_invariant eps r a b : 0 < r ->
+  (gt_tol (eps * r) (r * a) (r * b) <-> gt_tol eps a b) /\ (lt_tol (eps * r) (r * a) (r * b) <-> lt_tol eps a b).
+Proof. exact (fun Hr => conj (Decide.gt_relative_scale eps r a b Hr) (Decide.lt_relative_scale eps r a b Hr)). Qed.
+
+Theorem hcm_decision_transfers_when_separated eps r0 ri a b : 0 <= eps -> 0 < r0 -> 0 < ri ->
+  separated eps r0 a b -> separated eps ri a b ->
+  (gt_tol eps (r0 * a) (r0 * b) <-> gt_tol eps (ri * a) (ri * b)) /\
+  (lt_tol eps (r0 * a) (r0 * b) <-> lt_tol eps (ri * a) (ri * b)).
+Proof.
+  exact (fun He H0 Hi S0 Si => conj (Decide.gt_decision_transfers eps r0 ri a b He H0 Hi S0 Si)
+                                    (Decide.lt_decision_transfers eps r0 ri a b He H0 Hi S0 Si)).
+Qed.
+
+Theorem hcm_absolute_tolerance_not_scale_invariant_refuted eps a b : 0 < eps -> a < b - eps ->
+  exists r0, 0 < r0 /\ lt_tol eps (1 * a) (1 * b) /\ ~ lt_tol eps (r0 * a) (r0 * b).
+Proof. exact (Decide.absolute_tolerance_not_scale_invariant eps a b). Qed.
+
+Theorem hcm_separation_satisfiable :
+  let eps := / 1000000000000 in
+  separated eps (/ 100000000) 143.7 144.7 /\ separated eps 1 143.7 144.7 /\ separated eps (/ 100000000) 5 5.
+Proof. exact Decide.separated_sat. Qed.
 
 Section Stages.
   Variable LC : Type.
@@ -158,6 +190,11 @@ Print Assumptions gamma_const_keeps_scaling_monotone.
 Print Assumptions knee_rows_tiled_pointwise.
 Print Assumptions knee_rows_repeated_refuted.
 Print Assumptions uniform_knee_hides_layout.
+Print Assumptions hcm_exact_decision_scale_invariant.
+Print Assumptions hcm_relative_tolerance_scale_invariant.
+Print Assumptions hcm_decision_transfers_when_separated.
+Print Assumptions hcm_absolute_tolerance_not_scale_invariant_refuted.
+Print Assumptions hcm_separation_satisfiable.
 Print Assumptions pointwise_if_shared_pointwise.
 Print Assumptions lifetime_antitone_in_scale.
 Print Assumptions lifetime_isotone_in_knee.
